@@ -425,11 +425,22 @@ _public_ int m_ctx_deregister(void) {
     M_CTX_ASSERT();
     M_PARAM_ASSERT(c->state == M_CTX_IDLE);
 
-    int ret = pthread_setspecific(key, NULL);
-    if (ret == 0) {
+    /*
+     * Deregister the modules while the ctx still is the one of this thread:
+     * mod_deregister() refuses modules that do not belong to the thread's ctx.
+     * Keep the ctx alive meanwhile: an on_stop() callback may already release it
+     * while we walk the modules (m_mod_deregister() of the last module left, or m_ctx_deregister()).
+     */
+    int ret = 0;
+    M_MEM_LOCK(c, {
         m_iterate(c->modules, ctx_destroy_mods, NULL);
-        m_mem_unref(c);
-    }
+        if (pthread_getspecific(key) == c) {
+            ret = pthread_setspecific(key, NULL);
+            if (ret == 0) {
+                m_mem_unref(c);
+            }
+        }
+    });
     return ret;
 }
 
